@@ -227,3 +227,26 @@ Theorem params_result_order_example :
       [(bs "json-rpc-2.0 foo /r", cvx None None false [] true true)].
 Proof. exact CatalogMoreProofs.params_result_order_example. Qed.
 Print Assumptions params_result_order_example.
+
+(* "... and nothing else": which directive kinds act on the catalog when the tree is walked.  adder_kinds is the key
+   set of core.directiveFunctions as go2coq reads it from NewJApiCore on EVERY run; `addDirective` does nothing for
+   a kind that is not a key.  The hand model has a case for exactly those kinds, and is the identity on every
+   other kind - for every directive, every ancestor chain and every state. *)
+From JV.proofs Require Import AdderProofs.
+
+Theorem adders_are_the_modelled_cases : same_kind_set modelled_adders adder_kinds = true.
+Proof. exact adders_agree_lemma. Qed.
+Print Assumptions adders_are_the_modelled_cases.
+
+Theorem no_adder_is_noop :
+  forall (body_text : coords -> bytes) (banned : list kind) t anc b,
+  kind_in (d_kind (tree_dir t)) banned = false ->
+  kind_in (d_kind (tree_dir t)) adder_kinds = false ->
+  add_directive body_text banned t anc b = COk b.
+Proof. exact no_adder_is_noop_lemma. Qed.
+Print Assumptions no_adder_is_noop.
+
+Theorem kinds_without_adder :
+  filter (fun k => negb (kind_in k adder_kinds)) all_kinds = [KPath; KEnum; KMacro; KPaste; KInclude; KTAG].
+Proof. exact kinds_without_adder_lemma. Qed.
+Print Assumptions kinds_without_adder.
